@@ -118,6 +118,11 @@ func c13E2E(a lib.Args, res *lib.Result) error {
 			var x, y, z int64
 			if _, err := fmt.Sscanf(v, "bytes %d-%d/%d", &x, &y, &z); err == nil {
 				crs = fmt.Sprintf("%d:%d:%d", x, y, z)
+				// a short body may occur at several offsets of the object: prefer the offset the
+				// response itself claims, if the bytes there are the body
+				if rsp.Status != 416 && x >= 0 && int(x)+blen <= len(obj) && bytes.Equal(obj[x:int(x)+blen], rsp.Body) {
+					off = int(x)
+				}
 			} else {
 				crs = "unparsable:" + strings.ReplaceAll(v, " ", "_")
 			}
